@@ -68,7 +68,7 @@ def iterator(
                 return
 
             start = time.monotonic()
-            _to_cache = False
+            _to_cache = True
             _async_iterator = async_iterator(*args, **kwargs)
             while True:
                 try:
@@ -77,19 +77,20 @@ def iterator(
                     break
                 except Exception as exc:
                     cond_res = condition(exc, args, kwargs, key=_cache_key)
-                    if cond_res and isinstance(cond_res, Exception):
-                        _to_cache = True
+                    if _to_cache and cond_res and isinstance(cond_res, Exception):
                         await backend.set(_cache_key + f":{chunk_number}", RaiseException(exc), expire=_ttl)
                         await backend.set(_cache_key, chunk_number + 1, expire=_ttl - time.monotonic() + start)
                     raise exc
                 yield chunk
-                if condition(chunk, args, kwargs, key=_cache_key):
-                    _to_cache = True
+                if _to_cache and condition(chunk, args, kwargs, key=_cache_key):
                     await backend.set(_cache_key + f":{chunk_number}", chunk, expire=_ttl)
+                else:
+                    _to_cache = False
                 chunk_number += 1
-            if _to_cache:
+            if _to_cache and chunk_number:
                 executing_time = time.monotonic() - start
-                await backend.set(_cache_key, chunk_number, expire=_ttl - executing_time)
+                if _ttl > executing_time:
+                    await backend.set(_cache_key, chunk_number, expire=_ttl - executing_time)
             return
 
         return _wrap  # type: ignore[return-value]
